@@ -85,7 +85,9 @@ theorem addToSet_clause_update (spec now : Val) (wi : Bool) (f : String) (vs fs 
   have hsplit := splitDots_nodot' f hf1
   have hkey : keyOk f = true := by simp [keyOk, hsplit, hf3]
   have hdol : hasDollarPart f = false := hf2
-  simp only [applyUpdate, applyOps, h1]
+  have hpos : positionalUpdate [("$addToSet", Val.doc [(f, Val.doc vs)])] = false := by
+    simp [positionalUpdate, hdol]
+  simp only [applyUpdate, hpos, Bool.false_eq_true, if_false, applyOps, h1]
   simp only [show ("$addToSet" = "$rename") = False by decide,
     show ("$addToSet" = "$setOnInsert") = False by decide,
     show ("$addToSet" = "$currentDate") = False by decide, if_false, if_true]
